@@ -379,4 +379,74 @@ theorem relaxLoop_nonpos (fn : FastNet W) (σ : Nat → W → Option W) (delta :
   subst f1 f6
   rfl
 
+/-! ### `relaxCount` is the number of forward steps: the state `Relax` leaves is the state of `ForwardSteps(relaxCount)` -/
+
+theorem moveLoop_indep (d d' : W) (ck ck' : Bool) (is : List Nat) :
+    ∀ (sig p : List W) (r r' : Bool),
+      (moveLoop d ck is sig p r).1 = (moveLoop d' ck' is sig p r').1 ∧
+      (moveLoop d ck is sig p r).2.1 = (moveLoop d' ck' is sig p r').2.1 := by
+  induction is with
+  | nil => intro sig p r r'; exact ⟨rfl, rfl⟩
+  | cons i is ih =>
+    intro sig p r r'
+    unfold moveLoop
+    exact ih _ _ _ _
+
+/-- the state and the error of a forward step do not depend on `delta` -/
+theorem forwardStep_indep (fn : FastNet W) (σ : Nat → W → Option W) (d d' : W) (s : FState W) :
+    (forwardStep fn σ d s).1 = (forwardStep fn σ d' s).1 ∧ (forwardStep fn σ d s).2.2 = (forwardStep fn σ d' s).2.2 := by
+  unfold forwardStep
+  simp only
+  rcases actLoop fn σ (neuronIdx fn) (connLoop s.signals fn.conns s.processing) with ⟨p2, e⟩
+  cases e with
+  | some e => exact ⟨rfl, rfl⟩
+  | none =>
+    simp only
+    obtain ⟨h1, h2⟩ := moveLoop_indep d d' (!(Scalar.le d Scalar.zero)) (!(Scalar.le d' Scalar.zero)) (neuronIdx fn)
+      s.signals p2 true true
+    exact ⟨by rw [h1, h2], trivial⟩
+
+theorem relaxLoop_state (fn : FastNet W) (σ : Nat → W → Option W) (delta : W) (k : Nat) :
+    ∀ (res res' : Bool) (s : FState W),
+      (relaxLoop fn σ delta k res s).1 = (fwdLoop fn σ (relaxCount fn σ delta k s) res' s).1 ∧
+      (relaxLoop fn σ delta k res s).2.2 = (fwdLoop fn σ (relaxCount fn σ delta k s) res' s).2.2 := by
+  induction k with
+  | zero => intro res res' s; exact ⟨rfl, rfl⟩
+  | succ k ih =>
+    intro res res' s
+    obtain ⟨i1, i2⟩ := forwardStep_indep fn σ delta Scalar.zero s
+    unfold relaxLoop relaxCount
+    rcases hs : forwardStep fn σ delta s with ⟨s', r, e⟩
+    rw [hs] at i1 i2
+    simp only at i1 i2
+    cases e with
+    | some e =>
+      simp only
+      unfold fwdLoop
+      rcases hs0 : forwardStep fn σ Scalar.zero s with ⟨s0, r0, e0⟩
+      rw [hs0] at i1 i2
+      simp only at i1 i2
+      subst i1 i2
+      exact ⟨rfl, rfl⟩
+    | none =>
+      cases r with
+      | true =>
+        simp only
+        unfold fwdLoop
+        rcases hs0 : forwardStep fn σ Scalar.zero s with ⟨s0, r0, e0⟩
+        rw [hs0] at i1 i2
+        simp only at i1 i2
+        subst i1 i2
+        exact ⟨rfl, rfl⟩
+      | false =>
+        simp only
+        rw [show 1 + relaxCount fn σ delta k s' = relaxCount fn σ delta k s' + 1 by omega]
+        conv => rhs; unfold fwdLoop
+        conv => lhs; rhs; unfold fwdLoop
+        rcases hs0 : forwardStep fn σ Scalar.zero s with ⟨s0, r0, e0⟩
+        rw [hs0] at i1 i2
+        simp only at i1 i2
+        subst i1 i2
+        exact ih false r0 s'
+
 end GoNeat.Fast
